@@ -368,6 +368,7 @@ LIMITED = False
 
 class Prop:
     pid = 'C01'
+    ops_field = 'ops'
     props_file = 'Props/C01.v'
     required_theorems = ['export_inv_preserved', 'quiescent_view_eq_fresh',
                          'no_lost_withdrawal', 'fresh_is_export_rules',
